@@ -1,4 +1,5 @@
 """C07 — all interfaces to the same computation return the same numbers"""
+from corr import level2_family
 from oracles import c07 as oracle
 
 GEN = ["Ndim"]
@@ -7,6 +8,14 @@ PROPS = ["MagpyVerif.Props.C07"]
 
 
 def run(ctx, model_ok):
+    # error_cases / dataframe_order are theorems about Model/Level2 (getBH, dataframe): tie that model
+    # to getB(..., output="ndarray"/"dataframe") by the level2 correspondence stream
+    if ctx.driver_ok:
+        st = level2_family.run_stream(ctx, ctx.scale(120, 3000))
+        st.pop("samples", None)
+        ctx.cov["correspondence"] = st
+    else:
+        ctx.cov["correspondence"] = "driver did not build"
     budget = 10 if len(ctx.broken) else 1
     fails, ost = oracle.sweep(ctx, ctx.scale(60, 2500) * budget)
     ctx.failing += fails
@@ -17,7 +26,8 @@ def run(ctx, model_ok):
                        "dataframe compared with getX(src, obs); distinct = (case, call form) pairs, every case has a fresh random source")
     ctx.cov["traces_validated_against_impl"] = ost["c07_cases"]
     ctx.cov["samples"] = [ost["c07_forms"]]
-    ctx.cov["not_shown"] = ["method wrappers, _validate_getBH_inputs branches, core functions and dataframe assembly are delegation glue: cross-interface oracle only",
+    ctx.cov["not_shown"] = ["method wrappers, _validate_getBH_inputs branches and core functions are delegation glue: cross-interface oracle only",
+                            "dataframe: pandas DataFrame construction and column assignment are assumed as modelled (index list next to value list); labels are modelled by entry/sensor index",
                             "the rank of one parameter value is read from a valid instance's attribute by the generator (trusted)"]
     ctx.assumptions += ["np.tile / np.squeeze semantics in getBH_dict_level2 as modelled by DictIface.rows"]
 
